@@ -305,14 +305,16 @@ def load_known():
     maintained independently). Entries: {property, id, status: known|fixed, site, class, witness,
     description, commit?}. Never written at run time."""
     out = []
-    p = os.path.join(ROOT, "known_findings.json")
-    if os.path.exists(p):
-        out += json.load(open(p)).get("findings", [])
     d = os.path.join(ROOT, "known_findings")
     if os.path.isdir(d):
         for f in sorted(os.listdir(d)):
             if f.endswith(".json"):
                 out += json.load(open(os.path.join(d, f))).get("findings", [])
+        return out
+    # known_findings.json is the aggregate generated from the per-property files (scripts/gen_status.py)
+    p = os.path.join(ROOT, "known_findings.json")
+    if os.path.exists(p):
+        out += json.load(open(p)).get("findings", [])
     return out
 
 
